@@ -315,11 +315,14 @@ def judgeParse (cfg : ParseCfg) (cid : String) (o : Op) (hs : HState) (out : Out
           let okCost := !implStrs.isEmpty && implStrs.all (bestStrs.contains ·) && (!oneP || (!hasAlt tab && implStrs.length == 1))
           if !costOn then
             out := out.v cid o.n "C07" "K" okSub
-              ((if d8 then "KF-D8-attr-by-list-index " else "") ++ s!"tree(s)={implStrs} translations of repaired input {toks}: {specStrs.length}")
+              ((if d8 then "attr-by-list-index " else "") ++ s!"tree(s)={implStrs} translations of repaired input {toks}: {specStrs.length}")
           else
-            let d8c := !okCost && implStrs.all fun x => (strSet ((ds.map fun d => (d8Attr (translate g d)).accum.str))).contains x
+            -- with the cost flag the minimum is taken over the all-parses forest, which may be
+            -- incomplete (recorded finding D9): tagged only if every result is a genuine translation
+            let allAccum := strSet (trees.map fun t => t.accum.str)
+            let genuine := !implStrs.isEmpty && implStrs.all (allAccum.contains ·)
             out := out.v cid o.n "C07" "K" okCost
-              ((if d8c then "KF-D8-attr-by-list-index " else evTag) ++ s!"tree(s)={implStrs} minimal translations of repaired input {toks}: {bestStrs}")
+              ((if genuine then evTag else "") ++ s!"tree(s)={implStrs} minimal translations of repaired input {toks}: {bestStrs}")
         else if !costOn then
           if oneP then
             let okOne := !hasAlt tab && implStrs.length == 1 && implStrs.all (specStrs.contains ·)
